@@ -59,6 +59,7 @@ def check(run):
     cases = rstage.load_corpus("C11")
     cases += rstage.gen_cases(run.seed, 260 if quick else 3000, 8 if quick else 16, depth=3, strict=True)
     cases += rstage.gen_cases(run.seed + 7919, 60 if quick else 800, 8, depth=4, strict=True)
+    cases += rstage.gen_forced(run.seed + 11, 80 if quick else 1600, 8, strict=True)
     rows = evaluate(cases)
     cov = run.coverage
     disagree = [r for r in rows if r["js_lax"] != r["m_lax"] or r["js_strict"] != r["m_strict"]]
